@@ -21,6 +21,8 @@ pub struct HolderCommit {
     pub ct_value: Option<Integer>,
     pub ct_randomness: Option<Integer>,
     pub zk_json: String,
+    /// the commitment as the holder's wallet persists it (the library's own serde form)
+    pub c_json: String,
 }
 
 pub fn holder_commit_and_prove(key: &KeyMat, msgs: &[Integer], hidden: &[usize], trusted: bool) -> HolderCommit {
@@ -34,7 +36,7 @@ pub fn holder_commit_and_prove_with(key: &KeyMat, msgs: &[Integer], hidden: &[us
     let c = Commitment::<Sch>::commit_with_pk(&m, &key.pk, &bases, Some(hidden));
     let ct = tp.map(|tp| Commitment::<Sch>::commit_with_commitment_pk(&m, tp, Some(hidden)));
     let zk = ZKPoK::<Sch>::generate_proof(&m, c.cl03Commitment(), ct.as_ref().map(|x| x.cl03Commitment()), &key.pk, &bases, tp, hidden);
-    HolderCommit { c_value: c.value().clone(), c_randomness: c.randomness().clone(), ct_value: ct.as_ref().map(|x| x.value().clone()), ct_randomness: ct.as_ref().map(|x| x.randomness().clone()), zk_json: serde_json::to_string(&zk).unwrap() }
+    HolderCommit { c_value: c.value().clone(), c_randomness: c.randomness().clone(), ct_value: ct.as_ref().map(|x| x.value().clone()), ct_randomness: ct.as_ref().map(|x| x.randomness().clone()), zk_json: serde_json::to_string(&zk).unwrap(), c_json: serde_json::to_string(&c).unwrap() }
 }
 
 /// ClIssueRequest as it travels: the commitment VALUE only (the issuer-side frame rebuilds the
@@ -75,8 +77,14 @@ pub fn issuer_verify_only(r: &IssueRequest) -> bool {
 
 /// Holder: unblind and verify on the full vector; returns (verifies, signature parts)
 pub fn holder_unblind(key: &KeyMat, bs_json: &str, hc: &HolderCommit, full: &[Integer]) -> Result<(bool, (Integer, Integer, Integer)), String> {
+    holder_unblind_via(key, bs_json, hc, full, false)
+}
+
+/// `from_store`: the holder crashed after sending the request; the commitment (with its opening)
+/// comes back from the JSON document the wallet persisted, not from memory
+pub fn holder_unblind_via(key: &KeyMat, bs_json: &str, hc: &HolderCommit, full: &[Integer], from_store: bool) -> Result<(bool, (Integer, Integer, Integer)), String> {
     let bs: BlindSignature<Sch> = serde_json::from_str(bs_json).map_err(|e| e.to_string())?;
-    let c = Commitment::<Sch>::CL03(CL03Commitment { value: hc.c_value.clone(), randomness: hc.c_randomness.clone() });
+    let c = if from_store { serde_json::from_str::<Commitment<Sch>>(&hc.c_json).map_err(|e| format!("the stored commitment does not parse: {e}"))? } else { Commitment::<Sch>::CL03(CL03Commitment { value: hc.c_value.clone(), randomness: hc.c_randomness.clone() }) };
     let sig = bs.unblind_sign(&c);
     let ok = sig.verify_multiattr(&key.pk, &Bases(key.bases.0[..full.len()].to_vec()), &msgs_of(full));
     Ok((ok, crate::scen_sig::sig_parts(&sig)))
